@@ -82,6 +82,29 @@
 (* (calls do not change the object).  Every finished session is emitted    *)
 (* and replayed on one fresh section object.                               *)
 (*                                                                         *)
+(* File sessions (strengthening round 4).  The three version sections of   *)
+(* one file object share one stream, and a client normally resolves every   *)
+(* index the version-symbol table yields through the definitions and the    *)
+(* requirements WHILE it iterates the table.  A session of kind "file"      *)
+(* addresses the three section objects of ONE file object:                  *)
+(*   sopen / sstep   the version-symbol iteration, one symbol per step      *)
+(*   sget(n) / snum  random access / number of symbols                      *)
+(*   dget(q) / nget(q)          index resolution on the other two sections  *)
+(*   dopen / dstep, nopen / nstep   their iterations, one entry with its    *)
+(*                   whole auxiliary chain per step                         *)
+(*   seek(c)         the client repositions the shared stream (c = start,   *)
+(*                   end, middle of the file); no answer                    *)
+(* Disciplines: "resolve" (every yielded index is resolved on both sections *)
+(* before the next step), "scatter" (each step followed by a random access  *)
+(* from the far end and a repositioning), "braid" (the three iterations     *)
+(* advanced in turn, past their ends), "free" (every sequence of            *)
+(* MaxFileCalls calls after sopen + one sstep, small objects).  Checked on  *)
+(* the specification: FileSessionAnswers (every logged answer is what a     *)
+(* fresh read of the bytes yields: SymAt for symbol n, the look-up walks,   *)
+(* the view's chains), FileIterInOrder (each of the three iterations yields *)
+(* 1..n in order and then stays exhausted, whatever else was called in      *)
+(* between).                                                                *)
+(*                                                                         *)
 (* Not asserted (the standard does not fix it / outside the quantifier):   *)
 (* Version.name of a definition entry (names live in the auxiliaries);     *)
 (* two entries carrying the same index (excluded, NoDup); look-up of index *)
@@ -109,7 +132,10 @@ CONSTANTS Modes,        \* subset of {"chains", "versym"}
           Disciplines,  \* client sessions: subset of {"free", "updown", "downup", "weave"}
           SessPatterns, \* ... on objects with these placement patterns
           MaxCalls,     \* length of the "free" sessions
-          FreeCombos, FreeIAs   \* "free" sessions: <<class, little-endian, container>> combinations and index assignments
+          FreeCombos, FreeIAs,  \* "free" sessions: <<class, little-endian, container>> combinations and index assignments
+          FileDisciplines,      \* file sessions (three section objects of one file): subset of {"resolve", "scatter", "braid", "free"}
+          FileIAs,              \* ... on objects with these index assignments (and a placement in SessPatterns)
+          MaxFileCalls          \* length of the "free" file sessions (after the prefix sopen, sstep)
 
 VARIABLES phase,        \* "build" -> "walk" -> "done"
           ch,           \* the writer's choices so far
@@ -453,7 +479,8 @@ Bare(v) == [k \in 1..Len(v) |-> [e |-> v[k].e, auxes |-> [j \in 1..Len(v[k].auxe
 
 (* ------------------------------- writer -------------------------------- *)
 ClsLe == {<<32, TRUE>>, <<32, FALSE>>, <<64, TRUE>>, <<64, FALSE>>}
-NoSess == [kind |-> "none", disc |-> "none", log |-> <<>>, it |-> -1]
+NoIts == [def |-> -1, need |-> -1, sym |-> -1]        \* file sessions: entries each open iteration has yielded; -1: none open
+NoSess == [kind |-> "none", disc |-> "none", log |-> <<>>, it |-> -1, its |-> NoIts]
 Init ==
   /\ phase = "build" /\ obj = <<>> /\ img = <<>> /\ exp = <<>> /\ sec = "none" /\ wk = <<>> /\ sess = NoSess
   /\ \E cl \in ClsLe, m \in Modes, ct \in Containers :
@@ -560,15 +587,78 @@ FreeOK == /\ MaxCalls > 0 /\ <<obj.cls, obj.le, obj.cont>> \in FreeCombos /\ obj
 StartSession(kind, disc) ==
   /\ phase = "done" /\ obj.mode = "chains" /\ obj.pattern \in SessPatterns
   /\ (disc = "free" => FreeOK)
-  /\ sess' = [kind |-> kind, disc |-> disc, log |-> <<>>, it |-> -1]
+  /\ sess' = [kind |-> kind, disc |-> disc, log |-> <<>>, it |-> -1, its |-> NoIts]
   /\ phase' = "sess" /\ UNCHANGED <<ch, obj, img, exp, sec, wk>>
-SessLen == IF sess.disc = "free" THEN MaxCalls ELSE Len(Script(sess.kind, sess.disc))
+
+\* ---- file sessions: the three section objects of one file object (one shared stream)
+SOps == {"sopen", "sstep", "sget", "snum"}   DOps == {"dget", "dopen", "dstep"}   NOps == {"nget", "nopen", "nstep"}
+NSyms == Len(obj.versym)
+NeedAskable(v) == v # 0 \/ 0 \notin NeedCarried(obj)          \* (index 0 among requirements that carry 0: not asserted)
+FileScript(disc) ==
+  LET n == NSyms   cd == Count("def")   cn == Count("need")   m == Max({n, cd, cn}) + 1 IN
+  CASE disc = "resolve" ->
+         <<Letter("sopen", 0)>>
+         \o Flat([i \in 1..n |-> <<Letter("sstep", 0), Letter("dget", obj.versym[i])>>
+                                  \o (IF NeedAskable(obj.versym[i]) THEN <<Letter("nget", obj.versym[i])>> ELSE <<>>)])
+         \o <<Letter("sstep", 0), Letter("snum", 0)>>
+    [] disc = "scatter" ->
+         <<Letter("sopen", 0)>>
+         \o Flat([i \in 1..n |-> <<Letter("sstep", 0), Letter("sget", n - i), Letter("seek", i % 3)>>])
+         \o <<Letter("sstep", 0), Letter("seek", 0), Letter("sstep", 0)>>
+    [] disc = "braid" ->
+         <<Letter("sopen", 0), Letter("dopen", 0), Letter("nopen", 0)>>
+         \o Flat([i \in 1..m |-> (IF i <= n + 1 THEN <<Letter("sstep", 0)>> ELSE <<>>)
+                                  \o (IF i <= cd + 1 THEN <<Letter("dstep", 0)>> ELSE <<>>)
+                                  \o (IF i <= cn + 1 THEN <<Letter("nstep", 0)>> ELSE <<>>)])
+FileQ(kind) == LET car == Carried(kind) IN IF car = {} THEN {7} ELSE {Min(car)}
+FileFreeLetters(its) ==
+  {Letter("dget", q) : q \in FileQ("def") \cup {7}} \cup {Letter("nget", q) : q \in FileQ("need")}
+  \cup {Letter("sget", NSyms - 1), Letter("seek", 1)}
+  \cup {Letter(o, 0) : o \in {"sopen", "dopen", "nopen"}}
+  \cup (IF its.sym >= 0 THEN {Letter("sstep", 0)} ELSE {})
+  \cup (IF its.def >= 0 THEN {Letter("dstep", 0)} ELSE {})
+  \cup (IF its.need >= 0 THEN {Letter("nstep", 0)} ELSE {})
+\* the answer the property fixes: sstep / sget -> <<position of the symbol (1-based; 0: exhausted), its index>>;
+\* dstep / nstep -> <<entry number (0: exhausted), number of auxiliaries of its chain>>; look-ups as above
+FileAnswer(l, its) ==
+  CASE l.op = "dget" -> Call("dget", l.q, DefByIndex(obj, l.q), 0)
+    [] l.op = "nget" -> LET r == NeedByIndex(obj, l.q) IN Call("nget", l.q, r[1], r[2])
+    [] l.op \in {"sopen", "dopen", "nopen", "seek"} -> Call(l.op, l.q, 0, 0)
+    [] l.op = "sstep" -> IF its.sym < NSyms THEN Call("sstep", 0, its.sym + 1, obj.versym[its.sym + 1]) ELSE Call("sstep", 0, 0, 0)
+    [] l.op = "sget" -> Call("sget", l.q, l.q + 1, obj.versym[l.q + 1])
+    [] l.op = "snum" -> Call("snum", 0, NSyms, 0)
+    [] l.op = "dstep" -> IF its.def < Count("def") THEN Call("dstep", 0, its.def + 1, Len(obj.def[its.def + 1].auxes)) ELSE Call("dstep", 0, 0, 0)
+    [] l.op = "nstep" -> IF its.need < Count("need") THEN Call("nstep", 0, its.need + 1, Len(obj.need[its.need + 1].auxes)) ELSE Call("nstep", 0, 0, 0)
+FileNextIts(l, its) ==
+  CASE l.op = "sopen" -> [its EXCEPT !.sym = 0]
+    [] l.op = "dopen" -> [its EXCEPT !.def = 0]
+    [] l.op = "nopen" -> [its EXCEPT !.need = 0]
+    [] l.op = "sstep" -> IF its.sym < NSyms THEN [its EXCEPT !.sym = @ + 1] ELSE its
+    [] l.op = "dstep" -> IF its.def < Count("def") THEN [its EXCEPT !.def = @ + 1] ELSE its
+    [] l.op = "nstep" -> IF its.need < Count("need") THEN [its EXCEPT !.need = @ + 1] ELSE its
+    [] OTHER -> its
+FreePrefix == <<Call("sopen", 0, 0, 0), Call("sstep", 0, 1, obj.versym[1])>>
+StartFileSession(disc) ==
+  /\ phase = "done" /\ obj.mode = "chains" /\ obj.pattern \in SessPatterns /\ obj.ia \in FileIAs
+  /\ (disc = "free" => FreeOK /\ MaxFileCalls > 0)
+  \* a "free" session starts with the version-symbol iteration open and advanced by one symbol
+  /\ sess' = [kind |-> "file", disc |-> disc, log |-> IF disc = "free" THEN FreePrefix ELSE <<>>, it |-> -1,
+              its |-> IF disc = "free" THEN [NoIts EXCEPT !.sym = 1] ELSE NoIts]
+  /\ phase' = "sess" /\ UNCHANGED <<ch, obj, img, exp, sec, wk>>
+
+SessLen == IF sess.kind = "file" THEN (IF sess.disc = "free" THEN MaxFileCalls + Len(FreePrefix) ELSE Len(FileScript(sess.disc)))
+           ELSE IF sess.disc = "free" THEN MaxCalls ELSE Len(Script(sess.kind, sess.disc))
 ClientCall ==
   /\ phase = "sess" /\ Len(sess.log) < SessLen
-  /\ \E l \in (IF sess.disc = "free" THEN FreeLetters(sess.kind, sess.it) ELSE {Script(sess.kind, sess.disc)[Len(sess.log) + 1]}) :
-       sess' = [sess EXCEPT !.log = Append(@, Answer(sess.kind, l, sess.it)), !.it = NextIt(sess.kind, l, sess.it)]
+  /\ IF sess.kind = "file"
+     THEN \E l \in (IF sess.disc = "free" THEN FileFreeLetters(sess.its) ELSE {FileScript(sess.disc)[Len(sess.log) + 1]}) :
+            sess' = [sess EXCEPT !.log = Append(@, FileAnswer(l, sess.its)), !.its = FileNextIts(l, sess.its)]
+     ELSE \E l \in (IF sess.disc = "free" THEN FreeLetters(sess.kind, sess.it) ELSE {Script(sess.kind, sess.disc)[Len(sess.log) + 1]}) :
+            sess' = [sess EXCEPT !.log = Append(@, Answer(sess.kind, l, sess.it)), !.it = NextIt(sess.kind, l, sess.it)]
   /\ UNCHANGED <<phase, ch, obj, img, exp, sec, wk>>
-SessNext == (\E kind \in {"def", "need"}, disc \in Disciplines : StartSession(kind, disc)) \/ ClientCall
+SessNext == \/ \E kind \in {"def", "need"}, disc \in Disciplines : StartSession(kind, disc)
+            \/ \E disc \in FileDisciplines : StartFileSession(disc)
+            \/ ClientCall
 
 Next == AddEntry \/ AddAux \/ Finish \/ WalkNext \/ SessNext
 Spec == Init /\ [][Next]_vars
@@ -715,7 +805,7 @@ NeverStuck == phase = "walk" => ENABLED WalkNext
 FreshFind(kind, q) == IF kind = "def" THEN <<FindDef(LookupCx("def"), W0(LookupCx("def")), q), 0>>
                       ELSE FindNeed(LookupCx("need"), W0(LookupCx("need")), q)
 SessionAnswers ==
-  phase = "sess" /\ sess.log # <<>> =>
+  phase = "sess" /\ sess.kind # "file" /\ sess.log # <<>> =>
     LET c == sess.log[Len(sess.log)] IN
     CASE c.op = "get" -> FreshFind(sess.kind, c.q) = <<c.k, c.j>>
       [] c.op = "has" -> (c.k = 1) <=> (FindNeed(LookupCx("need"), W0(LookupCx("need")), -1) # <<0, 0>>)
@@ -725,11 +815,35 @@ SessionAnswers ==
 LastOpen(log) == Max({0} \cup {i \in 1..Len(log) : log[i].op = "open"})
 StepsAfterOpen(log) == SelectSeq(SubSeq(log, LastOpen(log) + 1, Len(log)), LAMBDA c : c.op \in {"step", "peek"})
 IterInOrder ==
-  phase = "sess" =>
+  phase = "sess" /\ sess.kind # "file" =>
     /\ (\A i \in 1..Len(sess.log) : sess.log[i].op \in {"step", "peek"} => LastOpen(SubSeq(sess.log, 1, i)) > 0)
     /\ LET st == StepsAfterOpen(sess.log) IN
        \A i \in 1..Len(st) : IF i <= Count(sess.kind)
                               THEN st[i].k = i /\ st[i].j = (IF st[i].op = "step" THEN Len(exp[sess.kind][i].auxes) ELSE 1)
                               ELSE st[i].k = 0
+\* file sessions: every logged answer is what a fresh read of the bytes yields - symbol n of the version-symbol table by
+\* SymAt (index from the table, name through the linked symbol table and its string table), look-ups by the walks,
+\* iteration steps by the view's chains
+FileSessionAnswers ==
+  phase = "sess" /\ sess.kind = "file" /\ sess.log # <<>> =>
+    LET c == sess.log[Len(sess.log)] IN
+    CASE c.op \in {"sstep", "sget"} ->
+           (c.k > 0 => LET r == SymAt(img.vs, img.sym, SymEnt, img.str, obj.le, c.k - 1) IN
+                       /\ c.k <= SymCount(img.vs) /\ r.ndx = c.j /\ r.sym = exp.versym[c.k].sym /\ c.j = exp.versym[c.k].ndx
+                       /\ (c.op = "sget" => c.k = c.q + 1))
+      [] c.op = "snum" -> c.k = SymCount(img.vs)
+      [] c.op = "dget" -> FreshFind("def", c.q) = <<c.k, c.j>>
+      [] c.op = "nget" -> FreshFind("need", c.q) = <<c.k, c.j>>
+      [] c.op = "dstep" -> c.k <= Len(exp.def) /\ (c.k > 0 => c.j = Len(exp.def[c.k].auxes))
+      [] c.op = "nstep" -> c.k <= Len(exp.need) /\ (c.k > 0 => c.j = Len(exp.need[c.k].auxes))
+      [] OTHER -> TRUE
+\* each of the three iterations yields 1..n in order, then stays exhausted, undisturbed by whatever is called in between
+LastOp(log, op) == Max({0} \cup {i \in 1..Len(log) : log[i].op = op})
+OpsAfter(log, open, step) == SelectSeq(SubSeq(log, LastOp(log, open) + 1, Len(log)), LAMBDA c : c.op = step)
+FileIterInOrder ==
+  phase = "sess" /\ sess.kind = "file" =>
+    \A x \in {<<"sopen", "sstep", SymCount(img.vs)>>, <<"dopen", "dstep", img.count.def>>, <<"nopen", "nstep", img.count.need>>} :
+      /\ (\A i \in 1..Len(sess.log) : sess.log[i].op = x[2] => LastOp(SubSeq(sess.log, 1, i), x[1]) > 0)
+      /\ LET st == OpsAfter(sess.log, x[1], x[2]) IN \A i \in 1..Len(st) : st[i].k = (IF i <= x[3] THEN i ELSE 0)
 SessionFrame == [][phase = "sess" => phase' = "sess" /\ UNCHANGED <<ch, obj, img, exp, sec, wk>> /\ Len(sess'.log) = Len(sess.log) + 1]_vars
 =============================================================================
